@@ -714,7 +714,10 @@ impl ExecutionState {
             }
 
             debug_assert!(
-                matches!(state.current_task, ScheduledTask::Some(_) | ScheduledTask::Finished)
+                matches!(
+                    state.current_task,
+                    ScheduledTask::Some(_) | ScheduledTask::Finished | ScheduledTask::Stopped
+                )
                     && state.next_task == ScheduledTask::None,
                 "we're inside a task and scheduler should not yet have run"
             );
